@@ -51,7 +51,7 @@ def cases(tier, seed):
     return out
 
 
-def run_series(case):
+def run_series(case, pacing=False):
     """5-9 messages in a row (broadcasts and destination-specific ones mixed, some overlapping in time) from ONE stack object to the reference
     responder: every one is accepted, and the independent sniffer decodes each to exactly what was submitted (state left behind by an
     earlier transfer -- session numbers, buffers -- must not show on the wire of a later one)"""
@@ -90,7 +90,12 @@ def run_series(case):
         sim.at(t, lambda m=m, pay=pay: m.update(ret=W.call('send', ca.send_pgn, 0, m['pf'], m['ps'], 6, list(pay))))
         # the next one after this one is through -- or, for a destination-specific message following a broadcast, while it is still running
         nxt_bam = kinds[i + 1] if i + 1 < len(kinds) else True
-        t += dur / 2 if (bam and not nxt_bam and rng.random() < 0.5) else dur
+        if bam and not nxt_bam and rng.random() < 0.5:
+            t += dur / 2            # a destination-specific transfer starts while this broadcast is running
+        elif (not bam) and nxt_bam and rng.random() < 0.5:
+            t += 0.002              # a broadcast starts while this destination-specific transfer is running (and outlives it)
+        else:
+            t += dur
     W.run(t + 3.0)
     obs = dict(exchanges=1, series_messages=len(msgs), frames=len(W.bus.frames), cts_checked=0, dt_checked=0, holds_exercised=0, bam_gaps_measured=0, cmdt_gaps_measured=0,
                stack_originator=1, stack_responder=0, zero_latency=0, background_timer=0)
@@ -99,6 +104,19 @@ def run_series(case):
         if p[0] == 'A':
             viol.add('wire_' + p[1] if len(p) > 2 else 'wire_problem', 'series: %s' % (p[2] if len(p) > 2 else p,), **tag)
     decoded = [s.payload() for s in sn.sessions if s.src == 'A']
+    if pacing:
+        # C09: broadcast packets of one session no closer than the default interval and no further apart than 200 ms (+ 2 ms)
+        iv = 0.010 if fd else 0.050
+        for s in sn.sessions:
+            if s.src != 'A' or s.mode != 'bam':
+                continue
+            ts = [s.t_open] + [x[0] for x in s.dts]
+            for a, b in zip(ts, ts[1:]):
+                obs['bam_gaps_measured'] += 1
+                if b - a < iv - 2e-6:
+                    viol.add('bam_too_fast', 'series: broadcast packets %.1f ms apart (interval %.0f ms)' % ((b - a) * 1000, iv * 1000), **tag)
+                elif b - a > 0.2 + 0.002:
+                    viol.add('bam_too_slow', 'series: %.3f s between two packets of one broadcast while another transfer of the same stack ran / ended (limit 0.200 s)' % (b - a), **tag)
     for m in msgs:
         rec = m['ret']
         # a destination-specific message submitted while a broadcast is running is on another pair / in another pool: it must be accepted;
